@@ -48,30 +48,61 @@ func TestC14Child(t *testing.T) {
 		t.Skip("child only")
 	}
 
+	// groups separated by ';' are registered by one GobRegister call each
 	if order != "-" {
-		for _, s := range strings.Split(order, ",") {
-			i, err := strconv.Atoi(s)
-			if err != nil {
-				t.Fatal(err)
+		for _, grp := range strings.Split(order, ";") {
+			var vals []interface{}
+
+			for _, s := range strings.Split(grp, ",") {
+				i, err := strconv.Atoi(s)
+				if err != nil {
+					t.Fatal(err)
+				}
+
+				vals = append(vals, tyPool[i])
 			}
 
-			cache.GobRegister(tyPool[i])
+			cache.GobRegister(vals...)
 		}
 	}
 
 	fmt.Printf("C14HASH %d\n", cache.GobTypesHash())
 }
 
-func childHash(t *testing.T, order []int) uint64 {
+func childHash(t *testing.T, order []int, groups ...int) uint64 {
 	s := "-"
 
 	if len(order) > 0 {
-		parts := make([]string, len(order))
-		for i, o := range order {
-			parts[i] = strconv.Itoa(o)
+		// groups: sizes of consecutive GobRegister calls (default: one value per call)
+		var sb strings.Builder
+
+		gi, left := 0, 1
+		if len(groups) > 0 {
+			left = groups[0]
 		}
 
-		s = strings.Join(parts, ",")
+		for i, o := range order {
+			if i > 0 {
+				if left == 0 {
+					sb.WriteByte(';')
+
+					gi++
+					left = 1
+
+					if gi < len(groups) {
+						left = groups[gi]
+					}
+				} else {
+					sb.WriteByte(',')
+				}
+			}
+
+			sb.WriteString(strconv.Itoa(o))
+
+			left--
+		}
+
+		s = sb.String()
 	}
 
 	cmd := exec.Command(os.Args[0], "-test.run", "^TestC14Child$", "-test.count=1")
@@ -186,6 +217,12 @@ func TestC14(t *testing.T) {
 	n := e.Pick(150, 1500)
 
 	for i := 0; i < n; i++ {
+		if i == n/2 {
+			// from here on the process reports the types hash 0 (an exporter that registered nothing):
+			// a differing hash sent by the importer must still be refused
+			cache.GobTypesHashReset()
+		}
+
 		mode := modes[e.Rng.Intn(len(modes))]
 		fam := []string{"legacy", "generic"}[e.Rng.Intn(2)]
 		pick := func() string {
@@ -335,7 +372,12 @@ func TestC14(t *testing.T) {
 
 		modeCoq := map[string]string{"ok": "MOk", "mismatch": "MMismatch", "fail": "MFail", "cut": "MCut"}[mode]
 		term := fmt.Sprintf("C14T %s %s %s %s %s", ht.Coq(), modeCoq, List(expItems), List(impItems), Bool(importErr == nil))
-		cf.Add(term, "transfer/"+mode+"/"+fam, map[string]any{"mode": mode, "family": fam, "exporter": exps, "importer": imps,
+		h0 := ""
+		if cache.GobTypesHash() == 0 {
+			h0 = "/hash0"
+		}
+
+		cf.Add(term, "transfer/"+mode+"/"+fam+h0, map[string]any{"mode": mode, "family": fam, "exporter": exps, "importer": imps,
 			"cutAt": cutAt, "bodyLen": bodyLen}, imported && alone)
 	}
 
@@ -348,7 +390,10 @@ func TestC14(t *testing.T) {
 	base := childHash(t, nil)
 	nOrders := e.Pick(25, 200)
 
-	var obs []string
+	var (
+		obs       []string
+		prevOrder []int
+	)
 
 	for i := 0; i < nOrders; i++ {
 		l := 1 + e.Rng.Intn(7)
@@ -363,7 +408,27 @@ func TestC14(t *testing.T) {
 			order = append(order, order[0])
 		}
 
-		hv := childHash(t, order)
+		// every second order repeats the previous one, registered through multi-argument GobRegister calls
+		var groups []int
+
+		if i%2 == 1 {
+			order = prevOrder
+
+			for left := len(order); left > 0; {
+				g := 1 + e.Rng.Intn(4)
+				if g > left {
+					g = left
+				}
+
+				groups = append(groups, g)
+				left -= g
+			}
+
+			cf.Count("hash_orders_grouped", 1)
+		}
+
+		prevOrder = order
+		hv := childHash(t, order, groups...)
 		on := make([]uint64, len(order))
 
 		for j, o := range order {
